@@ -13,6 +13,8 @@ import (
 	"unicode/utf8"
 
 	"github.com/dop251/goja"
+
+	"verif/harness/core"
 )
 
 // ---------------------------------------------------------------------------------------------
@@ -326,9 +328,11 @@ function R(v, d) {
   if (k === "goja") return "gojaval";
   if (d > 7) return "deep";
   if (Array.isArray(v)) {
-    var s = "[", n = v.length;
-    for (var i = 0; i < n; i++) { s += (i ? "," : "") + R(v[i], d + 1); }
-    return s + "]";
+    // elements are looked at in ascending, descending or shuffled order (PERM): what a wrapper hands out for index k must not
+    // depend on which indices were read before
+    var n = v.length, parts = new Array(n), ord = PERM(n);
+    for (var q = 0; q < n; q++) { var i = ord ? ord[q] : q; parts[i] = R(v[i], d + 1); }
+    return "[" + parts.join(",") + "]";
   }
   var keys = Object.keys(v).sort(CMP), s = "{", first = true;
   for (var i = 0; i < keys.length; i++) {
@@ -348,7 +352,25 @@ function RJ(v) { // JSON round trip rendered canonically (key order of Go maps i
 `
 
 // installNatives defines P, K, Q, STR, CMP used by R.
-func installNatives(r *goja.Runtime) {
+func installNatives(r *goja.Runtime, order *core.Rng) {
+	r.Set("PERM", func(call goja.FunctionCall) goja.Value {
+		n := int(call.Argument(0).ToInteger())
+		if order == nil || n < 2 || n > 64 {
+			return goja.Undefined()
+		}
+		mode := order.Intn(3)
+		if mode == 0 {
+			return goja.Undefined()
+		}
+		perm := make([]interface{}, n)
+		for i := range perm {
+			perm[i] = n - 1 - i
+		}
+		if mode == 2 {
+			order.Shuffle(n, func(i, j int) { perm[i], perm[j] = perm[j], perm[i] })
+		}
+		return r.NewArray(perm...)
+	})
 	r.Set("P", func(call goja.FunctionCall) goja.Value { return r.ToValue(renderPrim(call.Argument(0))) })
 	r.Set("Q", func(call goja.FunctionCall) goja.Value { return r.ToValue(strconv.Quote(call.Argument(0).String())) })
 	r.Set("CMP", func(call goja.FunctionCall) goja.Value {
